@@ -155,12 +155,14 @@ def main():
         for name, col in call["cols"].items():
             cols[name] = build_column(col)
         rec = {"ev": "call", "i": i}
-        for path in ("ref", "acc"):
-            di.USE_NUMBA = (path == "acc") and numba_ok
+        mode = spec.get("mode", "both")
+        paths = {"both": ("ref", "acc"), "acc": ("acc",), "ref": ("ref",)}[mode]
+        for path in paths:
+            di.USE_NUMBA = (path == "acc") and numba_ok and call.get("accelerated", True)
             if path == "acc" and not numba_ok:
                 rec["acc"] = {"skipped": "numba disabled at boot"}
                 continue
-            if path == "acc" and not call.get("accelerated", True):
+            if path == "acc" and not call.get("accelerated", True) and mode == "both":
                 rec["acc"] = {"skipped": "USE_NUMBA switched off for this call"}
                 continue
             out = io.StringIO()
